@@ -231,8 +231,8 @@ def sanitize_trace(path):
 TLC_RE_STATES = re.compile(r'(\d+) states generated, (\d+) distinct states found')
 
 
-def tlc(work, module, cfg=None, env_extra=None, workers=1, timeout=600, extra=None, dfs=False, name=None):
-    """Runs TLC in a scratch copy of spec/. Returns (rc, stdout)."""
+def tlc(work, module, cfg=None, env_extra=None, workers=1, timeout=600, extra=None, dfs=False, name=None, cfg_text=None):
+    """Runs TLC in a scratch copy of spec/ (cfg_text: contents of a configuration file written there as `cfg`). Returns (rc, stdout)."""
     name = name or module
     d = work.path('tlc_' + name)
     if not os.path.isdir(d):
@@ -240,6 +240,9 @@ def tlc(work, module, cfg=None, env_extra=None, workers=1, timeout=600, extra=No
         for f in os.listdir(SPEC):
             if f.endswith('.tla') or f.endswith('.cfg'):
                 shutil.copy(os.path.join(SPEC, f), d)
+    if cfg_text is not None:
+        with open(os.path.join(d, cfg), 'w') as f:
+            f.write(cfg_text)
     env = dict(os.environ)
     if env_extra:
         env.update(env_extra)
